@@ -54,8 +54,11 @@ def step(t, op):
 
 def run_history(ops):
     from trie.binary import BinaryTrie
-    t = BinaryTrie(db={})
-    return [step(t, op) for op in ops], t
+    db = {}
+    t = BinaryTrie(db=db)
+    outs = [step(t, op) for op in ops]
+    t.caller_db = db          # the object the caller handed in: every root must be readable from IT, whatever t.db has become
+    return outs, t
 
 
 def cop(op):
